@@ -146,8 +146,11 @@ class TreeInfo(productmd.common.MetadataBase):
         # still fail here and must not leave a truncated file behind
         parser = self._get_parser()
         self.serialize(parser, main_variant=main_variant)
+        # build the complete file content as well before touching the file
+        content = six.StringIO()
+        self.build_file(parser, content)
         with productmd.common.open_file_obj(f, "w") as f:
-            self.build_file(parser, f)
+            f.write(content.getvalue())
 
 
 class Header(productmd.common.Header):
